@@ -36,6 +36,25 @@ def gap_of(f, s):
     return max(0.0, max(float(f["RefStartPos"]), float(s["RefStartPos"])) - min(float(f["RefEndPos"]), float(s["RefEndPos"])))
 
 
+def check_many(case):
+    """more than a hundred second-pass fragments in one run: modes 'all' and 'separate' still agree and the AlignedRest
+    flags still tell the two passes apart"""
+    A = pipeline.run_case(case, mode="all", record=False)
+    S = pipeline.run_case(case, mode="separate", record=False)
+    if A.crashed or S.crashed:
+        return {"nontrivial": False, "classes": ["pipeline-crash:" + str(A.crash_signature or S.crash_signature)]}
+    for r in (A, S):
+        req(set(r.raw) == pipeline.EXPECTED_FILES[r.mode], "mode-file-set", f"mode {r.mode} wrote files {sorted(r.raw)}")
+    for sa, sb in (("_1", "main"), ("_2", "_1")):
+        req(xmap_text.strip_volatile(A.raw[sa]) == xmap_text.strip_volatile(S.raw[sb]), "modes-disagree",
+            f"file {sa} of mode all differs from file {sb} of mode separate ({len(A.files[sa])} vs {len(S.files[sb])} records)")
+    for suf, flag in (("_1", "False"), ("_2", "True")):
+        for rec in A.files[suf]:
+            req(rec.get("AlignedRest") == flag, "alignedrest-flag", f"record of file {suf} (query {rec['QryContigID']}) has AlignedRest={rec.get('AlignedRest')}")
+    n2 = len(A.files["_2"])
+    return {"nontrivial": n2 > 128, "classes": [f"second-pass-records>={128 if n2 > 128 else 0}"]}
+
+
 def union_signature(a_pairs, b_pairs, joined_pairs):
     """the union of the parts is a valid matching but the joined record is not it: which root cause?
     'joined-drops-pair-lying-in-a-gap-of-the-other-part' when every missing pair belongs to one part only and both its
@@ -202,9 +221,9 @@ def subchecks(tier):
     return [Sub("four-modes", "hyp", check_modes, strategy=strategy, examples=320 if q else 8000, shrink_budget=60,
                 describe="same input in best/separate/joined/all + boundary probe", sample_filter=gen_maps.short_case,
                 required_classes=("joined", "union-valid", "boundary-probe")),
-            Sub("many-queries", "hyp", lambda c: check_modes(c, probe=False), strategy=lambda: scale.many_queries_case(two_part=True, counts=(150, 257)),
-                examples=1 if q else 16, shrink_budget=0, shards=1 if q else 16, sample_filter=scale.short, time_budget_s=3000,
-                describe="150-257 two-part molecules (more than a hundred second-pass fragments) in all four modes"),
+            Sub("many-queries", "hyp", check_many, strategy=lambda: scale.many_queries_case(two_part=True, counts=(150, 200)),
+                examples=1 if q else 16, shrink_budget=0, skip_first=True, shards=1 if q else 16, sample_filter=scale.short, time_budget_s=3000,
+                describe="150-200 two-part molecules (more than a hundred second-pass fragments) in modes all and separate"),
             Sub("join-unit", "hyp", check_join_unit, strategy=join_unit.join_case, examples=12000 if q else 300000, shrink_budget=600,
                 describe="AlignmentResults.resolve on a first-pass row and the second-pass row of its own fragment (unit level)",
                 required_classes=("joined", "not-joined", "union-valid"))]
